@@ -3,6 +3,7 @@ package checks
 import (
 	"bytes"
 	"fmt"
+	"reflect"
 
 	"verif/internal/gen"
 	"verif/internal/schema"
@@ -13,7 +14,7 @@ func init() { Registry["C06"] = c06 }
 
 func c06(e *Env) {
 	r := e.R
-	r.Rule("every one of the 170 types × values (even cases canonical, odd cases arbitrary; only values that encode without error are judged) × buffer history H1..H7; plus mixed-type sequences of up to 20 messages into one buffer with random partial drains in between. distinct_nontrivial = distinct (non-zero value hash, history) pairs + distinct sequences")
+	r.Rule("every one of the 170 types × values (even cases canonical, odd cases arbitrary; only values that encode without error are judged) × buffer history H1..H7; plus mixed-type sequences of up to 20 messages into one buffer with random partial drains in between and, before one message in six, an encode that must FAIL (65 536 elements behind a 16-bit count, bare or inside its frame) into a buffer that is thrown away. distinct_nontrivial = distinct (non-zero value hash, history) pairs + distinct sequences")
 	r.Explain("Oracle per encode: (i) the unread bytes present before the call are unchanged afterwards; (ii) the appended bytes equal the bytes obtained by encoding a deep clone (taken before the first encode) into a fresh empty buffer; (iii) encoding the same object a second and a third time into fresh buffers gives the same bytes (computed fields and materialised bodies do not change the result); (iv) for a sequence m1..mn with random drains, the final unread content equals the concatenation of the individual fresh encodings minus the drained prefix.")
 	r.Assume("bytes.Buffer itself is correct")
 	types := e.Types()
@@ -104,6 +105,39 @@ func c06(e *Env) {
 			byMod[t.Pkg] = append(byMod[t.Pkg], t)
 		}
 		mods := sortedKeys(byMod)
+		// values whose encoding must FAIL (65 536 elements behind a 16-bit count), bare and inside their frame:
+		// a failed encode (into a buffer the caller throws away) must not influence the next encode
+		var failers []any
+		for _, t := range e.S.Order {
+			for _, s := range lenSites(t) {
+				if s.what != "count" || s.max != 0xFFFF {
+					continue
+				}
+				g := &gen.Gen{S: e.S, C: e.C, R: gen.NewRng(e.Seed, "C06", "failer", t.QName), O: &gen.Opts{Lens: []int{1}, StrLens: []int{2}}}
+				v := g.Value(t)
+				setLen(e, t, v, s, s.max+1, g)
+				failers = append(failers, v)
+				// the same body inside every frame type that can carry it
+				for _, ft := range e.S.Order {
+					for _, f := range ft.Fields {
+						if f.Kind != "union" || ft.Pkg != t.Pkg {
+							continue
+						}
+						tb := e.S.Table(ft.Pkg, f.Table)
+						for _, en := range tb.Entries {
+							if en.Type == t.Name {
+								fg := &gen.Gen{S: e.S, C: e.C, R: gen.NewRng(e.Seed, "C06", "failer-frame", ft.QName), O: &gen.Opts{ForceKey: map[string]any{tb.QName: en.Key}}}
+								fv := fg.Value(ft)
+								reflect.ValueOf(fv).Elem().FieldByName(f.Name).Set(reflect.ValueOf(val.Clone(v)))
+								failers = append(failers, fv)
+							}
+						}
+					}
+				}
+				break
+			}
+		}
+		hs.merge(map[string]int{"distinct-values-whose-encode-must-fail": len(failers)})
 		e.Par(nseq, func(si int) {
 			rng := gen.NewRng(e.Seed, "C06", "seq", si)
 			g := &gen.Gen{S: e.S, C: e.C, R: rng, O: &gen.Opts{}}
@@ -124,6 +158,13 @@ func c06(e *Env) {
 					continue
 				}
 				names = append(names, t.QName)
+				if rng.Chance(1, 6) && len(failers) > 0 {
+					// an encode that fails, into a buffer that is thrown away, right before the real one
+					fv := val.Clone(failers[rng.Intn(len(failers))])
+					if ferr, fpanic := LibEncode(fv, new(bytes.Buffer)); ferr != nil || fpanic != nil {
+						hs.merge(map[string]int{"failed-encodes-interleaved": 1})
+					}
+				}
 				err, p := LibEncode(v, buf)
 				if err != nil || p != nil {
 					r.Violate("C06/sequence-encode-failed/"+t.QName, "C06/sequence-encode-failed/"+t.QName, map[string]any{"type": t.QName, "sequence": si, "position": k, "error": fmt.Sprint(err, p)})
